@@ -4,6 +4,7 @@ use crate::prng::Rng;
 use crate::rt::{Cfg, Policy};
 use serde_json::{json, Value};
 
+pub mod index_threads;
 pub mod locks;
 pub mod loose;
 pub mod odb;
@@ -17,7 +18,7 @@ pub mod wtstream;
 pub mod zstream;
 
 pub fn all() -> Vec<&'static dyn Scenario> {
-    vec![&selftest::SelfTest, &parallel::Parallel, &refstore::RefStore, &pktline::PktLine, &pathstack::PathStack, &zstream::ZStream, &locks::Locks, &odb::OdbRepack, &loose::LooseStore, &wtstream::WtStream, &packing::PackIngest]
+    vec![&selftest::SelfTest, &parallel::Parallel, &refstore::RefStore, &pktline::PktLine, &pathstack::PathStack, &zstream::ZStream, &locks::Locks, &odb::OdbRepack, &loose::LooseStore, &wtstream::WtStream, &packing::PackIngest, &index_threads::IndexThreads]
 }
 
 /// Which scenario decides a property.
